@@ -5,7 +5,6 @@ import NetaddrVerif.Gen.Iana
 
 * `iana_query ver val`                → `[ids];[ids];[ids];[ids]` (IPv4; IPv6; IPv6_unicast; Multicast) over the
                                          regenerated tables `Gen.iana*`
-* `iana_query_t ver val [rows]x4`     → same over a table given on the line (rows `kind:ver:x:y`)
 * `oui_index h:<hex>` / `iab_index h:<hex>`
                                        → `[key:offset:size,…]` or `!tag`; the argument is the whole registry file
 * `ieee_lookup oui|iab key [k:o:s,…] [o:s:<hex>,…]`
@@ -34,15 +33,6 @@ def showIds (l : List Rec) : String := showList (l.map (fun r => toString r.id))
 
 def showInfo (i : Info) : String :=
   ";".intercalate [showIds i.ipv4, showIds i.ipv6, showIds i.ipv6u, showIds i.mcast]
-
-def parseRow (tok : String) : Option (Nat × Nat × Nat × Nat) :=
-  match tok.splitOn ":" with
-  | [a, b, c, d] => do pure (← a.toNat?, ← b.toNat?, ← c.toNat?, ← d.toNat?)
-  | _ => none
-
-def parseTable (tok : String) : Option (List Rec) := do
-  let rows ← (← parseList tok).mapM parseRow
-  pure (mkTable rows)
 
 /-- hex digit value of an ASCII byte (0 for anything else: the harness sends only hex) -/
 def hexVal (b : UInt8) : Nat :=
@@ -88,9 +78,6 @@ def handle (op : String) (args : List String) : Option String :=
   match op, args with
   | "iana_query", [ver, v] => do
     pure (showInfo (query genTables ⟨← ver.toNat?, ← v.toNat?⟩))
-  | "iana_query_t", [ver, v, t4, t6, t6u, tm] => do
-    let T : Tables := ⟨← parseTable t4, ← parseTable t6, ← parseTable t6u, ← parseTable tm⟩
-    pure (showInfo (query T ⟨← ver.toNat?, ← v.toNat?⟩))
   | "oui_index", [h] => do
     pure (showRows showHexKey (ouiIndex (← bigHex h)))
   | "iab_index", [h] => do
